@@ -45,7 +45,11 @@ import (
 
 func init() { Register("C06", Domain{Gen: c06Gen, Run: c06Run}) }
 
-const c06OpTimeout = 1500 * time.Millisecond
+// A request that has not returned after c06OpTimeout is reported as `hang`. Only Uint32SliceDelete
+// is known to be able to block forever; it gets the short limit, everything else a limit that a
+// loaded machine cannot reach by accident.
+const c06OpTimeout = 4 * time.Second
+const c06SlowTimeout = 60 * time.Second
 
 type c06State struct {
 	rig     *Rig
@@ -918,7 +922,7 @@ func c06Run(in *bufio.Scanner, w *bufio.Writer) {
 				select {
 				case <-done:
 					fmt.Fprintln(w, "ok")
-				case <-time.After(c06OpTimeout):
+				case <-time.After(c06SlowTimeout):
 					fmt.Fprintln(w, "hang")
 					s.dead, s.rigDead = true, true
 				}
@@ -926,7 +930,7 @@ func c06Run(in *bufio.Scanner, w *bufio.Writer) {
 			continue
 		case "closeidle":
 			// idle eviction through the real close listener (1 s idle timeout + 1 s gap)
-			deadline := time.Now().Add(8 * time.Second)
+			deadline := time.Now().Add(30 * time.Second)
 			closed := false
 			for time.Now().Before(deadline) {
 				live := false
@@ -984,11 +988,18 @@ func c06Run(in *bufio.Scanner, w *bufio.Writer) {
 		select {
 		case r := <-res:
 			fmt.Fprintln(w, r)
-		case <-time.After(c06OpTimeout):
+		case <-time.After(c06TimeoutOf(f[0])):
 			fmt.Fprintln(w, "hang")
 			s.dead, s.rigDead = true, true
 		}
 	}
+}
+
+func c06TimeoutOf(verb string) time.Duration {
+	if verb == "u32del" {
+		return c06OpTimeout
+	}
+	return c06SlowTimeout
 }
 
 // ---- generator -----------------------------------------------------------------
@@ -1186,7 +1197,7 @@ func c06RandOp(rng *rand.Rand, meta bool) string {
 		return "issw"
 	case r < 77:
 		return c06IncOp(rng, c06Pick(rng, c06Keys))
-	case r < 87:
+	case r < 88:
 		return "push " + c06U32Pairs(rng)
 	case r < 89:
 		return "u32del " + c06U32Pairs(rng)
@@ -1245,7 +1256,13 @@ func c06Gen(rng *rand.Rand, tier string, w *bufio.Writer) {
 		meta := rng.Intn(2) == 0
 		ops := make([]string, 0, l)
 		for j := 0; j < l; j++ {
-			ops = append(ops, c06RandOp(rng, meta))
+			o := c06RandOp(rng, meta)
+			// nearly every Uint32SliceDelete on a live key ends in the (listed) self-deadlock and costs
+			// the op timeout: keep it to a few cases per run (thorough: one case in eight)
+			for strings.HasPrefix(o, "u32del") && !(i < 4 || (tier == "thorough" && i%8 == 0)) {
+				o = c06RandOp(rng, meta)
+			}
+			ops = append(ops, o)
 		}
 		emit(kind, ops)
 	}
